@@ -80,7 +80,7 @@ def _tf_case(draw, max_t):
   shapes = []
   for _ in range(nleaves):
     r = draw(st.sampled_from([1, 2, 2, 3]))
-    shapes.append([draw(st.sampled_from([2, 3, 4, 6, 8])) for _ in range(r)])
+    shapes.append([draw(st.sampled_from([1, 2, 3, 4, 6, 8])) for _ in range(r)])
   return {"opt": "tf", "rep": so, "shapes": shapes,
           "o": {"graft": draw(st.sampled_from(["sgd", "rmsprop", "rmsprop", "adafactor"])),
                 "decay": draw(st.sampled_from([0.9, 0.999, 1.0])),
